@@ -2,6 +2,7 @@
 from ..eng import EngineModel
 from .. import rules_query as rq
 from .. import rules_bind as rb
+from .. import rules_extra as rx
 
 
 def check(repo, rep, tier):
@@ -17,3 +18,4 @@ def check(repo, rep, tier):
     rq.rule_query_finalised(em, rep, 'C17.P4')
     rb.rule_undo_on_all_exits(em, rep, 'C17.P5')
     rb.rule_no_exception_capture(em, rep, 'C17.P6')
+    rx.rule_depth_error_propagates(em, rep, 'C17.P7')
